@@ -123,7 +123,16 @@ func (e *evaluator) eval1(x ast.Expr) *Term {
 			e.sc = e.sc[:n]
 			return mk(x.Op.String(), l, r)
 		}
-		return mk(x.Op.String(), e.eval(x.X), e.eval(x.Y))
+		bl, br := e.eval(x.X), e.eval(x.Y)
+		if x.Op == token.QUO || x.Op == token.REM {
+			// integer division panics on a zero divisor: an event on the path, judged by C20.3 like an index
+			if bt, ok := types.Unalias(e.typeOf(x)).Underlying().(*types.Basic); ok && bt.Info()&types.IsInteger != 0 && e.st != nil && !e.quiet {
+				if _, isConst := intConst(stripConv(br)); !isConst || func() bool { v, _ := intConst(stripConv(br)); return v == 0 }() {
+					e.st.emit(&Event{Kind: EvIndex, Node: x, Pos: x.OpPos, Val: mk("intdiv", bl, br), Local: append([]Fact(nil), e.sc...)})
+				}
+			}
+		}
+		return mk(x.Op.String(), bl, br)
 	case *ast.UnaryExpr:
 		if x.Op == token.AND {
 			if cl, ok := x.X.(*ast.CompositeLit); ok {
